@@ -575,6 +575,8 @@ pub enum Op {
     Push(Vec<u8>), Pop, PushSlice(Vec<Vec<u8>>), Extend(Vec<Vec<u8>>), Truncate(usize), Clear, Remove(usize), SwapRemove(usize),
     Resize(usize, Vec<u8>), Set(usize, Vec<u8>), PushChar(u32), PushStr(Vec<u8>),
     FPush(D), FPop, FTruncate(usize), FClear, Item(usize, Box<Op>), Assign(D),
+    /// write the image of sized field `.1` (of variant `.0` of an unsized enum; 0 for a struct) through the mutable accessor
+    SetField(usize, usize, Vec<u8>),
 }
 impl Op {
     pub fn text(&self) -> String {
@@ -586,6 +588,7 @@ impl Op {
             Op::Set(i, x) => format!("set {} {}", i, hex(x)), Op::PushChar(c) => format!("pushc {}", c), Op::PushStr(b) => format!("pushstr {}", hex(b)),
             Op::FPush(d) => format!("fpush {}", d.text()), Op::FPop => "fpop".into(), Op::FTruncate(n) => format!("ftrunc {}", n), Op::FClear => "fclear".into(),
             Op::Item(i, o) => format!("item {} {}", i, o.text()), Op::Assign(d) => format!("assign {}", d.text()),
+            Op::SetField(v, i, x) => format!("setfield {} {} {}", v, i, hex(x)),
         }
     }
     pub fn parse(s: &str) -> Op {
@@ -598,6 +601,7 @@ impl Op {
             "set" => Op::Set(f[1].parse().unwrap(), unhex(f[2])), "pushc" => Op::PushChar(f[1].parse().unwrap()), "pushstr" => Op::PushStr(unhex(f[1])),
             "fpush" => Op::FPush(parse_ds(&f[1..].join(" ")).remove(0)), "fpop" => Op::FPop, "ftrunc" => Op::FTruncate(f[1].parse().unwrap()), "fclear" => Op::FClear,
             "item" => Op::Item(f[1].parse().unwrap(), Box::new(Op::parse(&f[2..].join(" ")))), "assign" => Op::Assign(parse_ds(&f[1..].join(" ")).remove(0)),
+            "setfield" => Op::SetField(f[1].parse().unwrap(), f[2].parse().unwrap(), unhex(f[3])),
             h => panic!("bad op {h}"),
         }
     }
